@@ -83,6 +83,9 @@ SELECTORS = [
     ("name(r) == 'c10/c' or 'c10/b' in names(r)", "name-names", "both"),
     ("Type.string == 'z' or Type.string == 'a'", "type-string-across-descriptors", "both"),
     ("Type.varint == 3 and not Type.string == 'a'", "type-varint-string", "both"),
+    # fields of a nested record whose descriptor differs from record to record
+    ("r.sub.n == 1", "nested-eq", "both"), ("r.sub.other == 'z' or r.sub.m == 3", "nested-or", "both"),
+    ("r.sub.s in ['a', 'x'] and r.k > 0", "nested-in-and", "both"), ("any(x == 1 for x in r.sub.il)", "nested-gen", "both"),
     # fields some records lack
     ("r.m == 3", "missing-eq", "both"), ("r.other == 'z'", "missing-other", "both"), ("r.zz == 1", "missing-everywhere", "both"),
     ("r.m > 1 or r.n > 1", "missing-or", "both"), ("r.zz != 1", "missing-ne", "both"),
@@ -193,6 +196,30 @@ def make_sequence(reader, seed, idx, tier):
     n = rnd.randint(6, 14)
     recs = []
     plain = []
+    if reader == "stream" and idx % 3 == 1:
+        # grouped records of differing member composition (all instances of ONE class, GroupedRecord) and records
+        # with a nested `record` field holding records of differing descriptors: each compared field is first
+        # lacking and later present, and the other way round, so anything a selector object remembers per class or
+        # per attribute name shows up as history dependence
+        from flow.record import GroupedRecord, RecordDescriptor
+        N = RecordDescriptor("c10/nest", [("record", "sub"), ("varint", "k")])
+
+        def mk(k):
+            d = D[k]
+            return d(_generated=GEN_TS, **_vals(rnd, [f for _, f in d.get_field_tuples()]))
+
+        def grp(ks):
+            return GroupedRecord("c10/grp", [mk(k) for k in ks])
+
+        def nest(k):
+            return N(sub=(mk(k) if k else None), k=rnd.choice([0, 1, 2]), _generated=GEN_TS)
+        rounds = []
+        for _ in range(2):
+            block = [grp("B"), grp("C"), grp("A"), grp("BC"), grp("CA"), nest("B"), nest("C"), nest("A"), nest(None), mk("A"), mk("B"), mk("C")]
+            rnd.shuffle(block)
+            rounds += block
+        # both orders of every (lacking, having) pair are present: the second round repeats all compositions
+        return dict(records=rounds, plain=[], random=False)
     if reader == "stream" and idx % 3 == 2:
         # arbitrary descriptors / values of every field type, grouped records included
         g = recgen.Gen(rnd, legacy=True, nested=True)
